@@ -1,4 +1,4 @@
--- GENERATED from /tmp/wt_seed by checks/ on every run. Do not edit.
+-- GENERATED from /repo by checks/ on every run. Do not edit.
 import TbbVerif.Core.Cint
 namespace TbbVerif.Generated.C07
 open TbbVerif.Cint
